@@ -14,13 +14,29 @@ PROP = dict(
           "patterns of the wider forms; g2448: all 2^24 three-byte buffers through the 24-bit accessors, all six-byte buffers over "
           "{00,01,7F,80,FF} and random buffers at every offset through the 24/48-bit accessors; bits: every bit string up to 12 bits "
           "and generated write/truncate/reset histories with read plans of sizes 0..64. "
+          "alias: the value handed to a writer is the one the argument had when the call was made, also when the argument refers INTO the "
+          "writer's own buffer: StringWriter::put<T>(const T&) / pput<T>(off, const T&) with T over {u8 s8 u16 u32 u64 float double, le_/be_/re_ "
+          "wrappers, packed structs of 3, 12 and 40 bytes}, write(ptr, n) and write(const string&) with the writer's own str(), BufferWriter "
+          "put<T>/write/pput<T>/pwrite between disjoint places of its buffer; 1..4 such calls per case on a prefix of 1..2000 bytes built in four "
+          "ways (one write, byte by byte, chunks of 7, into spare capacity - i.e. every capacity state of the underlying string, including the "
+          "inline-storage limit and each doubling step); exhaustive: every prefix length 1..600 x every type x source offsets 0, 3, 8, last. "
+          "Oracle: bytes of the argument read before the call, then read back through StringReader. "
+          "big: a StringReader over a sparse anonymous mapping of k*2^32 + extra bytes (k = 1..3): all sixteen 24/48-bit accessors (get/pget, u/s, "
+          "b/l, advance on/off) and, as controls, every ordinary accessor and raw reads, at offsets at, just below, straddling and above a "
+          "multiple of 2^32 and at the end of the data; the bytes at the same offset minus every multiple of 2^32 hold the complemented pattern. "
           "Non-trivial: a sequence using >= 2 distinct operation kinds of which at least one is a multi-byte endian-explicit "
-          "(r/b/l) scalar; a 24/48-bit buffer of >= 6 bytes with a sign bit set; a bit history of >= 9 bits with >= 2 multi-bit reads. "
+          "(r/b/l) scalar; a 24/48-bit buffer of >= 6 bytes with a sign bit set; a bit history of >= 9 bits with >= 2 multi-bit reads; "
+          "an aliased write on a prefix of >= 4 bytes; a >4 GiB case with a 24/48-bit read ending above 2^32. "
           "Distinct = distinct case encodings (hash)."),
     assumptions=["little-endian host only: 'regardless of host byte order' is checked by an independent shift/multiply decoder, not by running on a big-endian host",
                  "BitReader reads are generated inside its length only (BitReader is unchecked by design)",
                  "positional writes land at most 64 bytes past the end of the buffer",
-                 "BufferWriter is given a buffer of exactly the model's final size (bounds behaviour is C02)"],
+                 "BufferWriter is given a buffer of exactly the model's final size (bounds behaviour is C02)",
+                 "alias: pput<T> from an argument inside the writer is generated only with a destination inside the data that is disjoint from "
+                 "or identical to the argument; a destination that makes the writer grow is a reported defect of the unchanged tree (pput resizes "
+                 "before it copies; corpus/c01/alias_pput_grow.case.reported) and a partly overlapping one is a memcpy overlap - both are counted "
+                 "under `excluded`",
+                 "big: needs 4..12 GiB of address space (not memory); where the mapping fails the case is counted under `excluded`"],
     min_evaluations_quick=17000000, min_evaluations_thorough=18000000,
     technique=("property-based testing: rapidcheck operation sequences + exhaustive small-scope enumeration against an independent "
                "encoder/decoder (multiplication/division byte assembly, arithmetic sign extension, bit-list packing)"),
